@@ -32,7 +32,11 @@ type vsrvScript struct {
 	Group uint16 // key_share group announced (0 = first client share the server implements)
 	// ExchangeAs: perform the key exchange with the client's share for THIS group while announcing Group
 	// (cooperative adversary: a client that fails to reject Group would complete the handshake)
-	ExchangeAs        uint16
+	ExchangeAs uint16
+	// ShareLen >= 0: the key_exchange of the ServerHello key_share is cut or zero-extended to this many bytes (the
+	// key schedule then runs on whatever the real exchange gave: a hostile server)
+	ShareLen          int
+	ShareLenSet       bool // ShareLen applies also when it is 0
 	OverrideSessionID bool
 	SessionID         []byte
 	Compression       uint8
@@ -414,6 +418,13 @@ func vsrvRun13(ctx context.Context, c *Conn, s *vsrvScript) error {
 		serverShare = vsrvFakeShare(group)
 		shared = make([]byte, 32)
 		rand.Read(shared)
+	}
+	if s.ShareLen > 0 || s.ShareLenSet {
+		if s.ShareLen <= len(serverShare) {
+			serverShare = serverShare[:s.ShareLen]
+		} else {
+			serverShare = append(append([]byte(nil), serverShare...), make([]byte, s.ShareLen-len(serverShare))...)
+		}
 	}
 	s.SentGroup = group
 	c.curveID = CurveID(group)
